@@ -77,9 +77,9 @@ class Schema(object):
                     uniques=[list(u[:2]) + [list(u[2])] for u in self.uniques])
 
 
-def build_api(schema, id_generator=None):
+def build_api(schema, id_generator=None, factory=None):
     import xtuml
-    m = xtuml.MetaModel(id_generator or xtuml.IntegerGenerator())
+    m = (factory or xtuml.MetaModel)(id_generator or xtuml.IntegerGenerator())
     for kind, attrs in schema.classes:
         m.define_class(kind, list(attrs))
     for kind, name, attrs in schema.uniques:
